@@ -122,10 +122,8 @@ fn run_requests(lines: &[String], out: &mut Out, hist: &mut Hist) {
         };
         let a = compile_id(&id, t, &m);
         let d0 = a.as_ref().map(|o| o.digest()).unwrap_or_else(|| "bad".into());
+        // a panic is a C08 matter; for C07 it only has to be the same panic every time
         let mut fail = None;
-        if let Some(CompileOutcome::Panic(p)) = &a {
-            fail = Some(format!("panic {}", p));
-        }
         for k in 1..5 {
             let d = compile_id(&id, t, &m).map(|o| o.digest()).unwrap_or_else(|| "bad".into());
             if d != d0 && fail.is_none() {
